@@ -29,13 +29,14 @@ RULE = ('nucleotide (DNA/RNA/IUPAC) and protein sequences of 0-60 columns (thoro
         'The oracle for regexes is CPython re on the pattern the docstring promises (gap class between each two neighbouring letters, computed on a flat token stream) with frames from residue counts')
 TRUSTED = ['CPython re (sre) for the codon-alternation patterns of DESIGN 5.5: modelled by a hand-written backtracking matcher '
            '(ordered alternation, greedy "[gap]*", leftmost non-overlapping finditer) and compared on every case',
+           'CPython re for the regex subset of coq/model/C13_Rx.v: modelled by a backtracking matcher over syntax trees (proved sound and complete w.r.t. the language of the tree; agreement with CPython compared on every case)',
            'CPython bisect.bisect_left on an ascending list (modelled as the number of leading elements < i)',
            'modelled: cane.match (cane.py:167-255), BioMatch.span (cane.py:137-141), BioSeq.match/matchall, BioBasket.match/matchall; '
            'BioSeq.rc through the C05 model over the regenerated COMPLEMENT tables',
            'copy.deepcopy of a BioSeq (the driver asserts that the receiver is unchanged)']
 ASSUMPTIONS = ['Python str restricted to printable ASCII; sequences without lower-case letters (the constructor upper-cases)',
-               'patterns: "start", "stop" or "|"-separated non-empty words over ASCII letters and "."; general regexes are outside the domain',
-               'start >= 0; gap None or a non-empty string over the gap symbols "-", ".", "~" with "-" only first or last (so that "[gap]*" is exactly that set); gap strings containing "]", "^", backslash, ranges or letters are outside the domain; rf a string in fwd/bwd/both, an int, a collection of ints or None']
+               'patterns: "start", "stop", "|"-separated non-empty words over ASCII letters and ".", or a regex of the subset of coq/model/C13_Rx.v (literals, ".", classes, negated classes, concatenation, alternation, greedy * + ? on consuming atoms, groups; not nullable); other regexes are outside the model and only compared with CPython re',
+               'start >= 0; gap None or a non-empty string over the gap symbols "-", ".", "~" with "-" only first or last (so that "[gap]*" is exactly that set); gap strings containing "]", "^", backslash, ranges or letters are outside the domain; rf None, an int, a bool, a string (fwd/bwd/both, others raise AssertionError), a collection of ints, or a value that cannot be iterated (TypeError)']
 
 COMP = dict(zip('ACGTRYSWKMBDHVN.-', 'TGCAYRSWMKVHDBN.-'))
 
@@ -1465,7 +1466,7 @@ LEVEL_TEXT = ('Machine-checked Coq theorems (55, all closed under the global con
               'is proved sound and complete w.r.t. a declarative relation, finditer leftmost-complete, and for plain prefix-free words without proper overlap (start, stop) every occurrence is reported exactly once; ordered alternation reports the first word that occurs; no word occurs outside the reported spans; span bounds; the start offset in forward coordinates for backward frames; empty results; rf forms count only through membership; basket wrappers element-wise. '
               'The gap argument is a character SET throughout (model, relation irel, residues, theorems): "[gap]*" is the class of the characters of the gap string and '
               '"nt in gap" is membership; the backward-count theorem uses a regenerated-table fact for the gap symbols "-", ".", "~". '
-              'Round 7, the pattern language (coq/model/C13_Rx.v, 19 theorems): simple regexes are syntax trees (literal characters, ".", classes and negated classes over letters, '
+              'Round 7, the pattern language (coq/model/C13_Rx.v, 19 theorems): simple regexes are syntax trees (literal characters, ".", classes and negated classes over letters, ".", "*" and a leading "-", '
               'concatenation, ordered alternation, greedy * + ? on atoms that consume, capturing and non-capturing groups; the pattern must not match the empty string) with a printer to the pattern text and a backtracking matcher with CPython priorities. '
               'rx_rewrite_text_is_tree: the gap rewriting of cane.py:217-223 (re.findall units of the pattern text, a class "[...]" being one letter unit since fix 7e33c72; modelled with its backtracking corner cases) applied to the text of a tree is the text of the tree-level rewriting (gap class between two neighbours of a concatenation that end / begin with a letter, "." or a class), for all trees of the subset; '
               'rx_matcher_sound (only prefixes in the language of the pattern are reported); rx_gap_meaning (what the rewritten pattern matches is, degapped, matched by the original pattern, for patterns without ".", negated classes and gap characters; what the original matches is still matched), unbounded, by induction over trees and derivations; '
@@ -1481,6 +1482,6 @@ LEVEL_NOTE = ('Trusted: Coq kernel/vm_compute, tools/gen_data.py (COMPLEMENT tab
               'The frame theorem is at full strength (no guard) since the dot_on_gap fix 69fc7dc (bisect_left); the former witnesses '
               'are in corpus/C13/dot_on_gap.json. Tested only (differential + first-principles oracle, not proved): equivalence of the two hand-written '
               'matchers with CPython re (soundness and completeness w.r.t. the declarative language are proved, agreement with CPython is tested), that CPython parses the printed text as the tree, a BioSeq given as the pattern (cane.py:209-210, compared through its upper-cased text), independence '
-              'of earlier calls / shared objects / in-place edits (400 histories per quick run; the model is pure), the key ORDER of the dict returned by groupby (proved for the model, but the harness compares the result as a mapping: dict ordering is no property observable; the order inside each group is compared), groupby with other keys than "rf" and with two keys / the .d alias (relational stream, first-principles nested partition), regexes outside the modelled subset (anchors, {m,n}, lazy quantifiers, ranges, escapes, look-ahead: relational stream against CPython re on both strands, gap None and gap set). rx_gap_meaning is one inclusion plus monotonicity: gap characters are tolerated only between neighbouring letters of the text, not inside a repetition ("AT+G" does not match "AT-TG"), which the theorem does not hide. Statement coverage of the '
-              'modelled functions in the quick tier: see evidence. No axioms.')
+              'of earlier calls / shared objects / in-place edits (400 histories per quick run; the model is pure), the key ORDER of the dict returned by groupby (proved for the model, but the harness compares the result as a mapping: dict ordering is no property observable; the order inside each group is compared), groupby with other keys than "rf" and with two keys / the .d alias (relational stream, first-principles nested partition), regexes outside the modelled subset (anchors, {m,n}, lazy quantifiers, ranges, escapes, look-ahead: relational stream against CPython re on both strands, gap None and gap set). rx_gap_meaning is one inclusion plus monotonicity: gap characters are tolerated only between neighbouring letter units of the text (letters, ".", classes), not inside a repetition ("AT+G" does not match "AT-TG"), which the theorem does not hide. The unit scanner of the rewriting (units / class_unit) also models what re.findall does with an unclosed "[" or "[]"; those branches lie outside rx_ok and are not exercised by compared cases. Statement coverage of the '
+              'modelled functions in the quick tier: every statement of match, BioMatch.span, BioMatchList.groupby, _groupby and the four wrappers is executed (the nested-key line of _groupby by the relational stream). No axioms.')
 TECHNIQUE = 'Coq proof over an executable model + differential correspondence with /repo on every run'
